@@ -191,7 +191,7 @@ def update_kwargs(sc, p):
 # configurations
 # ------------------------------------------------------------------------------------------------
 
-def mkcfg(nupd, pos, reg, init=((), ()), keymode="pos", fmt=None, maxp=RP, maxu=RU):
+def mkcfg(nupd, pos, reg, init=((), ()), keymode="pos", fmt=None, maxp=RP, maxu=RU, env=None):
     def pad(seq, n, fill):
         seq = [list(x) if isinstance(x, (list, tuple)) else x for x in seq]
         return seq + [fill] * (n - len(seq))
@@ -199,13 +199,13 @@ def mkcfg(nupd, pos, reg, init=((), ()), keymode="pos", fmt=None, maxp=RP, maxu=
     pos = [pad(r, maxu, 1) for r in pad(pos, maxp, [])]
     reg = [pad([list(x) for x in r], maxu, []) for r in pad(reg, maxp, [])]
     return {"id": 0, "nupd": nupd, "pos": pos, "reg": reg, "init": [list(init[0]), list(init[1])], "keymode": keymode,
-            "fmt": pad(fmt or [], maxp, 0)}
+            "fmt": pad(fmt or [], maxp, 0), "env": pad(env or [], maxp, 0)}
 
 
 def cfg_lit(c):
     return tla.lit({"id": c["id"], "nupd": tuple(c["nupd"]), "pos": tuple(tuple(r) for r in c["pos"]),
                     "reg": tuple(tuple(tuple(x) for x in r) for r in c["reg"]),
-                    "init": tuple(tuple(x) for x in c["init"]), "keymode": c["keymode"], "fmt": tuple(c["fmt"])})
+                    "init": tuple(tuple(x) for x in c["init"]), "keymode": c["keymode"], "fmt": tuple(c["fmt"]), "env": tuple(c["env"])})
 
 
 def mc_configs(quick):
@@ -321,6 +321,56 @@ def l1_scenarios(rng, quick):
         cfg = mkcfg([1, 1], [[1]] * 2, [[[1, 4]], [[2, 4]]], init=((3,), ()))
         out.append({"name": "stalled-holder/2/npy-f32", "fmt": "npy", "mode": "f32", "cfg": cfg, "style": [["full"] * RU] * RP, "idx": len(out),
                     "stall": 12.0})
+    out += env_scenarios(quick, len(out))
+    return out
+
+
+ENV_VARS = ("SLURM_JOB_ID", "PBS_JOBID", "LSB_JOBID", "SLURM_NPROCS", "HOSTNAME", "TMPDIR", "HOME", "LANG")
+ENV_VALUES = {"SLURM_JOB_ID": "424242", "PBS_JOBID": "1717.head", "LSB_JOBID": "9901", "SLURM_NPROCS": "4", "HOSTNAME": "node07",
+              "TMPDIR": "/tmp", "HOME": "/tmp", "LANG": "C"}
+
+
+def env_scenarios(quick, start_idx):
+    """Updaters that were launched separately, with DIFFERENT environments (batch-scheduler job ids, host name, temp/home
+    directory, locale set for some and unset for others), in both entering orders, through update_image and through the
+    ToastSampler caller: all updaters of a tile must agree on the lock whatever their environment says."""
+    kinds = [("npy", "f32"), ("fits", "f32"), ("png", "rgba"), ("npy", "f64")]
+    out = []
+
+    def add(envs, first, k, caller=None, tag=""):
+        n = len(envs)
+        fmt, mode = kinds[k % len(kinds)]
+        envs = [dict((v, ENV_VALUES[v]) for v in e) for e in envs] + [{}] * (RP - n)
+        if caller:
+            sc = toast_scenario(fmt, mode, n, start_idx + len(out))
+            sc["name"] = "env-toast-sampler/%s%d/%s" % (tag, n, fmt)
+        else:
+            cfg = mkcfg([1] * n, [[1]] * n, [[[p, 4 if p != 4 else 1]] for p in range(1, n + 1)], init=((), ()), fmt=[p % 2 for p in range(n)])
+            sc = {"name": "env-update_image/%sfirst%d/%d/%s" % (tag, first, n, fmt), "fmt": fmt, "mode": mode, "cfg": cfg,
+                  "style": [["full", "slice", "full"]] * RP, "idx": start_idx + len(out), "first": first}
+        sc["env"] = envs
+        sc["deadline"] = 30
+        out.append(sc)
+    if quick:
+        # four differently configured updaters at once (every pair differs), each of them entering first once
+        mixes = [
+            [["SLURM_JOB_ID", "TMPDIR"], [], ["PBS_JOBID", "LANG", "HOSTNAME"], ["LSB_JOBID", "HOME", "SLURM_NPROCS"]],
+            [["SLURM_JOB_ID", "SLURM_NPROCS", "HOSTNAME"], ["LANG", "HOME"], ["PBS_JOBID", "LSB_JOBID"], ["TMPDIR"]],
+        ]
+        for first in (1, 2, 3, 4):
+            add(mixes[first % 2], first, first)
+        add(mixes[0][:3], None, 0, caller="toast")
+        add(mixes[1][:2], None, 2, caller="toast")
+    else:
+        k = 0
+        for var in ENV_VARS:                       # one variable at a time: set for one updater, unset for the other
+            for first in (1, 2):
+                add([[var], []], first, k, tag=var + "/")
+                k += 1
+            add([[var], []], None, k, caller="toast", tag=var + "/")
+            add([[], [var]], None, k + 1, caller="toast", tag=var + "-second/")
+        for first in (1, 2, 3, 4):
+            add([["SLURM_JOB_ID", "TMPDIR"], [], ["PBS_JOBID", "LANG", "HOSTNAME"], ["LSB_JOBID", "HOME", "SLURM_NPROCS"]], first, first, tag="mix/")
     return out
 
 
@@ -334,7 +384,7 @@ def _l1_updater(p, sc, d, sh):
     import warnings
     from toasty.pyramid import PyramidIO
     warnings.simplefilter("ignore")
-    ticket, cond, inside, overlap, barrier = sh
+    ticket, cond, inside, overlap, barrier, entered = sh
     events = []
     err = None
 
@@ -343,6 +393,14 @@ def _l1_updater(p, sc, d, sh):
             ticket.value += 1
             return ticket.value
     try:
+        if sc.get("env"):                                     # a separately launched job: its own environment, set before
+            for var in ENV_VARS:                              # anything of toasty's is created or called
+                val = sc["env"][p - 1].get(var)
+                if val is None:
+                    os.environ.pop(var, None)
+                else:
+                    os.environ[var] = val
+        first = sc.get("first")
         pio = PyramidIO(d, default_format=sc["fmt"])
         cfg = sc["cfg"]
         mode = sc["mode"]
@@ -363,13 +421,22 @@ def _l1_updater(p, sc, d, sh):
                     return arr[::-1] if flip else arr
                 ToastSampler(pio, sampler, False).visit_callback(real_pos(t), tiles[POS_XY[t]])
                 continue
+            if first and i == 1 and p != first:               # entering order: the designated updater is inside first
+                with cond:
+                    cond.wait_for(lambda: entered.value == 1, 20)
             with pio.update_image(real_pos(t), masked_mode=mode_of(mode), default="masked", **update_kwargs(sc, p)) as basis:
                 t0 = draw()                                   # before the work
                 with cond:                                    # rendezvous: succeeds iff a second body is inside this tile now
                     inside[t] += 1
+                    if first == p and i == 1:
+                        entered.value = 1
+                        cond.notify_all()
                     if inside[t] >= 2:
                         overlap.value = 1
                         cond.notify_all()
+                    elif first:
+                        if first == p and i == 1:
+                            cond.wait(2 * DWELL)
                     elif i == 1:
                         cond.wait(sc["stall"] if (t0 == 1 and sc.get("stall")) else DWELL)   # "stall": the first holder overall
                 px0 = project(basis.asarray(), mode)
@@ -394,7 +461,8 @@ def _l1_run(sc, d):
     os.makedirs(d, exist_ok=True)
     pio = prepare_dir(sc, d)
     procs = [p for p in range(1, RP + 1) if sc["cfg"]["nupd"][p - 1] > 0]
-    sh = (ctx.Value("i", 0), ctx.Condition(), ctx.Array("i", NPOS + 1, lock=False), ctx.Value("i", 0, lock=False), ctx.Barrier(len(procs)))
+    sh = (ctx.Value("i", 0), ctx.Condition(), ctx.Array("i", NPOS + 1, lock=False), ctx.Value("i", 0, lock=False), ctx.Barrier(len(procs)),
+          ctx.Value("i", 0, lock=False))
     t0 = time.time()
     ws = []
     for p in procs:
@@ -402,7 +470,7 @@ def _l1_run(sc, d):
         w.start()
         ws.append(w)
     stuck = []
-    deadline = time.time() + 60
+    deadline = time.time() + sc.get("deadline", 60)
     for p, w in zip(procs, ws):
         w.join(max(0.1, deadline - time.time()))
         if w.is_alive():
@@ -993,8 +1061,8 @@ def run(ctx):
         live.append(mkcfg([2, 2, 2], [[1, 1]] * 3, [[[1], [1, 4]], [[2], [2, 4]], [[3], [3, 4]]], maxp=3, maxu=2))
     bg.start("live", lambda: ctx.tlc("MCTileLockLive", extra={"MCTileLockLive.tla": mc_module("MCTileLockLive", live)},
                                      cfg_text=MC_CFG % ("FairSpec", 3, 2, "INVARIANT Mutex\nPROPERTY Termination"), workers=2, timeout=3000))
-    for km in ("proc", "fmt"):
-        neg = [mkcfg([1, 1], [[1, 1]] * 2, [[[1], [1]], [[2], [2]]], keymode=km, fmt=[0, 1], maxp=3, maxu=2)]
+    for km in ("proc", "fmt", "env"):
+        neg = [mkcfg([1, 1], [[1, 1]] * 2, [[[1], [1]], [[2], [2]]], keymode=km, fmt=[0, 1], env=[1, 0], maxp=3, maxu=2)]
         bg.start("neg-" + km, (lambda neg=neg, km=km: ctx.tlc("MCTileLockNeg", extra={"MCTileLockNeg.tla": mc_module("MCTileLockNeg", neg)},
                                                               cfg_text=MC_CFG % ("Spec", 3, 2, "INVARIANT NoLostUpdate"), workers=1, timeout=600,
                                                               expect_violation=True, count=False)))
@@ -1161,14 +1229,15 @@ def run(ctx):
     t_bg = time.time()
     bg.join()
     ctx.note("phase_wall", {"layer1_wait": round(t_bg - t_l1, 1), "tlc_wait": round(time.time() - t_bg, 1)})
-    for km in ("proc", "fmt"):
+    for km in ("proc", "fmt", "env"):
         if bg.results["neg-" + km].violated != "NoLostUpdate":
             ctx.machinery("the specification does not refute the lock-key design %r (got %r)" % (km, bg.results["neg-" + km].violated))
     for inv_name in ("Mutex", "NoLostUpdate"):
         if bg.results["neg-steal-" + inv_name].violated != inv_name:
             ctx.machinery("the specification does not refute 'finite lock timeout + takeover' on %s (got %r)"
                           % (inv_name, bg.results["neg-steal-" + inv_name].violated))
-    ctx.note("refuted_designs", ["lock key per process", "lock key per format argument", "finite lock timeout + takeover (StealLock)"])
+    ctx.note("refuted_designs", ["lock key per process", "lock key per format argument", "lock class (exclusion domain) chosen from the updater's environment",
+                                  "finite lock timeout + takeover (StealLock)"])
     ctx.note("mc_configs", len(mcs))
     ctx.note("mc_bound", "3 processes x 2 updates, 4 abstract pixels, 2 tiles; all interleavings")
     ctx.exhaustive = True
